@@ -73,7 +73,12 @@ __CPROVER_assigns()
 __CPROVER_ensures(__CPROVER_return_value == NPOS || (__CPROVER_return_value < s.n ? s.p[__CPROVER_return_value] == c : 0))
 __CPROVER_ensures((G_i < (__CPROVER_return_value == NPOS ? s.n : __CPROVER_return_value)) ? s.p[G_i] != c : 1)
 ;
-static inline sv_t sv_prefix(sv_t s, size_t cnt) { sv_t r = s; if (cnt < s.n) r.n = cnt; return r; }
+/* s.substr(pos, cnt) with size_t arguments (cnt may be npos) */
+static inline sv_t sv_substr_sz(sv_t s, size_t pos, size_t cnt)
+{
+  __CPROVER_assert(pos <= s.n, "[C15.bounds] substr(pos, n): pos <= size() (std::out_of_range otherwise)");
+  sv_t r; r.p = s.p + pos; r.n = (cnt < s.n - pos) ? cnt : s.n - pos; r.lc = s.lc; return r;
+}
 /* memchr(s, c, n) */
 const void *vf_memchr(const void *s, int c, size_t n)
 __CPROVER_requires(n <= LEN_MAX && (n == 0 ? 1 : __CPROVER_r_ok(s, n))) /*[C15.bounds]*/
